@@ -104,7 +104,12 @@ inline unsigned compare_with_model(const typename Z::field_t & f, const model::N
         typename F::output_t got = view.at(c);
         vh::ev();
         bool ok = r.v.size() == T::M;
-        for (std::size_t j = 0; ok && j < T::M; ++j) ok = (Q)got[j] == r.v[j];
+        if (ok) {
+            model::Vec gv(T::M);
+            for (std::size_t j = 0; j < T::M; ++j) gv[j] = (Q)got[j];
+            ok = r.admits(gv);
+            if (!r.alts.empty()) vh::stat("lookups_on_a_nearest_neighbour_tie");
+        }
         if (!ok) {
             vh::viol(key, std::string(Z::type_string()) + " [" + Z::name() + "] " + phase + " c=" + show_q(mc) + " got=" + show_vec(got, T::M) + " model=" + show_q(r.v));
             return hits;
@@ -113,11 +118,12 @@ inline unsigned compare_with_model(const typename Z::field_t & f, const model::N
             if (q % 4 == 0) {
                 typename F::output_t g2 = at_variadic<F>(view, c, std::make_index_sequence<T::N>{});
                 vh::ev();
-                for (std::size_t j = 0; j < T::M; ++j)
-                    if (!((Q)g2[j] == r.v[j])) {
-                        vh::viol(key + ":variadic-at", std::string(Z::type_string()) + " c=" + show_q(mc));
-                        return hits;
-                    }
+                model::Vec gv2(T::M);
+                for (std::size_t j = 0; j < T::M; ++j) gv2[j] = (Q)g2[j];
+                if (!r.admits(gv2)) {
+                    vh::viol(key + ":variadic-at", std::string(Z::type_string()) + " c=" + show_q(mc));
+                    return hits;
+                }
             }
         }
         if (hits == 3 && std::strcmp(phase, "lookup") == 0) vh::sample(Z::name(), std::string(Z::type_string()) + " c=" + show_q(mc) + " -> " + show_q(r.v), 1);
